@@ -7,6 +7,7 @@ import (
 	"net/http/httptest"
 	"os"
 	"path/filepath"
+	"regexp"
 	"sort"
 	"strings"
 	"unicode"
@@ -405,6 +406,13 @@ func (staticEngine) Run(ops []string) (ans []string, oracle []string) {
 				if !known {
 					return "bad-op"
 				}
+				if cfg.kind == "files" {
+					// the extension list becomes part of the route's regular expression: a list that is no regular
+					// expression must be refused (registration panics), not turned into a route that serves something else
+					if _, err := regexp.Compile(`^.+\.(?:` + strings.Join(exts, "|") + `)$`); err != nil {
+						oracle = append(oracle, fmt.Sprintf("C17 extensions: StaticFiles accepted the extension list %q, which is not a regular expression (%v)", strings.Join(exts, "|"), err))
+					}
+				}
 				router = r
 				if add {
 					mounts = append(mounts, cfg)
@@ -601,6 +609,31 @@ func (staticEngine) Corpus() []Case {
 			cases = append(cases, Case{Ops: ops, Tag: "corpus-flags"})
 		}
 	}
+	// long request paths on a caching router: a deep directory with a long name, several files in it that differ only
+	// at the very end of the path (far behind the first hundred bytes), each requested twice and in both orders
+	{
+		long := "/" + strings.Repeat("l", 120)
+		deep := long + "/" + strings.Repeat("m", 90)
+		lf := []string{long + "/app.js", long + "/notes.md", long + "/site.css", deep + "/app.js", deep + "/readme.txt", deep + "/x.css"}
+		ltree := treeOp(append(append([]string{}, baseFiles...), lf...), append(append([]string{}, baseDirs...), long, deep))
+		for _, fl := range []int{2, 3, 8, 16} {
+			for _, cfg := range []struct {
+				kind, prefix string
+				exts         []string
+			}{{"files", "/assets", []string{"css", "js"}}, {"dir", "/static", nil}, {"files", "", []string{"js"}}, {"fs", "/fs/x", nil}} {
+				ops := []string{ltree, mountOpF(cfg.kind, fl, cfg.prefix, cfg.exts, "")}
+				var ts []string
+				for _, f := range lf {
+					ts = append(ts, cfg.prefix+f)
+				}
+				ops = append(ops, reqOps(ts...)...)
+				for i := len(ts) - 1; i >= 0; i-- {
+					ops = append(ops, reqOp(ts[i]), reqOp(ts[i]))
+				}
+				cases = append(cases, Case{Ops: ops, Tag: "corpus-longpath"})
+			}
+		}
+	}
 	// global path vars defined by the application before the handlers are registered; "file" is the name the
 	// static handlers use for their own route var, all/any/num are rux's predefined ones.  The inline regex of
 	// the static routes (for StaticFiles: the extension filter) must win over every one of them.
@@ -652,7 +685,9 @@ var (
 		"/..a", "/a..", "/css/..css", "/back\\slash.css", "/sp ace.css", "/a.css ", "/\xc3\xa9.css", "/a\n.css", "/.git/config", "/%41.css", "/...", "/css/...",
 		"/a.css.", "/js", "/www", "/www/a.css", "/t.txt", "/sub/t.html", "/.css", "/js/.js"}
 	poolDirs = []string{"/css", "/js", "/sub", "/sub/deep", "/www-private", "/%2e%2e", "/d.css", "/empty", "/.git", "/www", "/sub/index.html", "/css/css", "/ dir"}
-	extSets  = [][]string{{"css", "js"}, {"css"}, {"js", "ejs"}, {"html", "htm"}, {"txt"}, {"css", "js", "html"}, {"JS"}, {"bak"}, {"s"}}
+	extSets  = [][]string{{"css", "js"}, {"css"}, {"js", "ejs"}, {"html", "htm"}, {"txt"}, {"css", "js", "html"}, {"JS"}, {"bak"}, {"s"},
+		// lists that are no regular expression (glob habits, stray characters): registration must refuse them
+		{"*.css", "*.js"}, {"css", "js", "c++"}, {"css", "[ch"}, {"css", "js", "*"}}
 	prefixes = []string{"/static", "/static", "/assets", "/a/b", "", "/v1.0", "/fs/x/y", "/s-t_u~v", "/css", "/www",
 		"/", "/static/", "static", "//a", "/a/../b", "/a//b", "/.", "/a/"}
 	// global path vars an application may have defined before it registers the static handlers: the name the
